@@ -417,6 +417,7 @@ func C20(e *Env) {
 	}
 	sks := b.skeletons(e.Tier)
 	effectRules(e, sks)
+	c05ProcessScopes(e)
 	emissionRules(e, sks, map[string]bool{"R05.1": true, "R02.5": true})
 	r.Rule("R02.5", "every construction runs its own construction code: a service block registers a constructor closure that evaluates the declared value/constructor/type expression when called (never a value evaluated once at container creation, which would hand one object to every context and every non_shared Get) (shared with C02)", 10)
 	c05Validator(e)
